@@ -53,4 +53,115 @@ theorem start_overhang_eq (o : OverlapResult) :
 theorem end_overhang_eq (o : OverlapResult) :
     o.endOverhang = Gen.K.OverlapResult_end_overhang (self_bait_end := o.bait.stop) (self_end := o.stop) := rfl
 
+/-- `start_row_bait_overlap`: the model reads `rows[0]` with Python's IndexError, then computes the translated expression -/
+theorem start_row_bait_overlap_eq (o : OverlapResult) :
+    o.startRowBaitOverlap = (pyGet o.rows 0).map (fun r0 =>
+      Gen.K.OverlapResult_start_row_bait_overlap (self_bait_start := o.bait.start) (self_bait_end := o.bait.stop)
+        (self_start := o.start) (self_rows_0_length := r0.length)) := by
+  unfold OverlapResult.startRowBaitOverlap Gen.K.OverlapResult_start_row_bait_overlap
+  cases pyGet o.rows 0 with
+  | error e => rfl
+  | ok r0 =>
+    simp only [bind, Except.bind, pure, Except.pure, Except.map]
+    congr 1
+    by_cases h : min o.bait.stop (o.start + r0.length - 1) < max o.bait.start o.start <;> simp [h]
+
+theorem end_row_bait_overlap_eq (o : OverlapResult) :
+    o.endRowBaitOverlap = (pyGet o.rows (-1)).map (fun rl =>
+      Gen.K.OverlapResult_end_row_bait_overlap (self_bait_start := o.bait.start) (self_bait_end := o.bait.stop)
+        (self_end := o.stop) (self_rows_m1_length := rl.length)) := by
+  unfold OverlapResult.endRowBaitOverlap Gen.K.OverlapResult_end_row_bait_overlap
+  cases pyGet o.rows (-1) with
+  | error e => rfl
+  | ok rl =>
+    simp only [bind, Except.bind, pure, Except.pure, Except.map]
+    congr 1
+    by_cases h : min o.bait.stop o.stop < max o.bait.start (o.stop - rl.length + 1) <;> simp [h]
+
+/-! ## fasta/index.py — chunk arithmetic -/
+
+theorem fwd_chunks_eq (start stop bs : Int) :
+    fwdChunkList start stop bs = Gen.K.FastaIndex_fwd_chunks (start := start) (end_v := stop) (self_buffer_size := bs) := by
+  unfold fwdChunkList Gen.K.FastaIndex_fwd_chunks chunkBounds
+  simp only [Int.ofNat_eq_natCast] <;> rfl
+
+theorem rev_chunks_eq (start stop bs : Int) :
+    revChunkList start stop bs = Gen.K.FastaIndex_rev_chunks (start := start) (end_v := stop) (self_buffer_size := bs) := by
+  unfold revChunkList Gen.K.FastaIndex_rev_chunks chunkBounds
+  simp only [Int.ofNat_eq_natCast] <;> (split <;> rfl)
+
+/-- the gap iterator yields `gap_character * (chunk_end - chunk_start)`: a negative count is an empty chunk -/
+theorem gap_chunks_eq (length bs : Int) :
+    gapChunkList length bs = (Gen.K.FastaIndex_get_gap_iter (gap_length := length) (self_buffer_size := bs)).map (max 0) := by
+  unfold gapChunkList Gen.K.FastaIndex_get_gap_iter
+  simp only [Int.ofNat_eq_natCast, List.map_map] <;> rfl
+
+/-! ## fasta/index.py — `sequence_bytes`: the seek / read plan translated from the source, run on a file cursor -/
+
+
+/-- a binary file handle: `seek(n)` (negative → error, as CPython), `seek(k, 1)`, `read(n)` appended to the result
+    (short at end of file; `n < 0` reads to the end) — the SPEC of what the three operations mean -/
+def runPlan (file : Bytes) : List Gen.K.IOp → Int → ReadLog → R ReadLog
+  | [], _, log => .ok log
+  | .seek n :: r, _, log => if n < 0 then .error .other else runPlan file r n log
+  | .skip k :: r, pos, log => if pos + k < 0 then .error .other else runPlan file r (pos + k) log
+  | .read n :: r, pos, log =>
+    let d := readAt file pos n
+    runPlan file r (pos + d.length) { data := log.data ++ d, reads := log.reads ++ [n] }
+
+theorem runPlan_wholeLines (file : Bytes) (rpl leb : Int) (hleb : 0 ≤ leb) (rest : List Gen.K.IOp) :
+    ∀ (k : Nat) (pos : Int) (log : ReadLog), 0 ≤ pos →
+      runPlan file ((List.replicate k [Gen.K.IOp.read rpl, Gen.K.IOp.skip leb]).flatten ++ rest) pos log =
+        runPlan file rest (readWholeLines file rpl leb k pos log).1 (readWholeLines file rpl leb k pos log).2 ∧
+      0 ≤ (readWholeLines file rpl leb k pos log).1 := by
+  intro k
+  induction k with
+  | zero => intro pos log hp; exact ⟨rfl, hp⟩
+  | succ k ih =>
+    intro pos log hp
+    have hd : (0 : Int) ≤ ((readAt file pos rpl).length : Int) := Int.natCast_nonneg _
+    have hp' : 0 ≤ pos + ((readAt file pos rpl).length : Int) + leb := by omega
+    have := ih (pos + ((readAt file pos rpl).length : Int) + leb) { data := log.data ++ readAt file pos rpl, reads := log.reads ++ [rpl] } hp'
+    refine ⟨?_, ?_⟩
+    · simp only [List.replicate_succ, List.flatten_cons, List.cons_append, List.nil_append, runPlan, readWholeLines]
+      rw [if_neg (by omega)]
+      exact this.1
+    · simp only [readWholeLines]; exact this.2
+
+/-- **`sequence_bytes` = its translated plan.**  For an index entry with `rpl ≠ 0` (else ZeroDivisionError) and
+    `rpl ≤ mll` (line terminator of ≥ 0 bytes — what the indexer writes), the model of `sequence_bytes` is the plan
+    translated from the current source, run on a file cursor: same bytes, same read sizes, same failures. -/
+theorem sequence_bytes_plan_eq (file : Bytes) (info : FastaInfo) (s e : Int) (h0 : info.rpl ≠ 0) (hle : info.rpl ≤ info.mll) :
+    sequenceBytes file info s e =
+      runPlan file (Gen.K.FastaIndex_sequence_bytes_plan (start := s) (end_v := e) (info_file_offset := info.fileOffset)
+        (info_max_line_length := info.mll) (info_residues_per_line := info.rpl)) 0 {} := by
+  unfold sequenceBytes Gen.K.FastaIndex_sequence_bytes_plan
+  simp only [h0, if_false, bind, Except.bind, pure, Except.pure, runPlan, decide_eq_true_eq, ite_true, throw, throwThe, MonadExceptOf.throw]
+  by_cases hp : info.fileOffset + pyMod (s - 1) info.rpl + info.mll * pyDiv (s - 1) info.rpl < 0
+  · simp [hp]
+  · simp only [hp, if_false]
+    by_cases hl : pyDiv (s - 1) info.rpl = pyDiv (e - 1) info.rpl
+    · simp [hl, runPlan]
+    · simp only [hl, if_false, runPlan]
+      have hd : (0 : Int) ≤ ((readAt file (info.fileOffset + pyMod (s - 1) info.rpl + info.mll * pyDiv (s - 1) info.rpl)
+          (info.rpl - pyMod (s - 1) info.rpl)).length : Int) := Int.natCast_nonneg _
+      have hleb : 0 ≤ info.mll - info.rpl := by omega
+      have hpos1 : ¬ (info.fileOffset + pyMod (s - 1) info.rpl + info.mll * pyDiv (s - 1) info.rpl +
+          ((readAt file (info.fileOffset + pyMod (s - 1) info.rpl + info.mll * pyDiv (s - 1) info.rpl)
+            (info.rpl - pyMod (s - 1) info.rpl)).length : Int) + (info.mll - info.rpl) < 0) := by omega
+      simp only [hpos1, if_false]
+      obtain ⟨hw, _⟩ := runPlan_wholeLines file info.rpl (info.mll - info.rpl) hleb
+        (if decide (pyMod e info.rpl ≠ 0) = true then [Gen.K.IOp.read (pyMod e info.rpl)] else [])
+        ((if pyMod e info.rpl = 0 then pyDiv (e - 1) info.rpl else pyDiv (e - 1) info.rpl - 1) - pyDiv (s - 1) info.rpl).toNat
+        (info.fileOffset + pyMod (s - 1) info.rpl + info.mll * pyDiv (s - 1) info.rpl +
+          ((readAt file (info.fileOffset + pyMod (s - 1) info.rpl + info.mll * pyDiv (s - 1) info.rpl)
+            (info.rpl - pyMod (s - 1) info.rpl)).length : Int) + (info.mll - info.rpl))
+        { data := [] ++ readAt file (info.fileOffset + pyMod (s - 1) info.rpl + info.mll * pyDiv (s - 1) info.rpl)
+            (info.rpl - pyMod (s - 1) info.rpl), reads := [] ++ [info.rpl - pyMod (s - 1) info.rpl] } (by omega)
+      simp only [decide_eq_true_eq] at hw ⊢
+      rw [hw]
+      by_cases hlo : pyMod e info.rpl = 0
+      · simp [hlo, runPlan]
+      · simp [hlo, runPlan]
+
 end AgpTpf.Kernels
